@@ -741,10 +741,70 @@ theorem cf_step (s : State) (op : Op) :
     rw [step'_eq]
     exact cfOf_collEnv s (.setVersion v) (Or.inr (Or.inr ⟨v, rfl⟩))
 
-/-- `CF` runs closed under bank movements of transactions outside the collection family -/
+/-- no `cfOps` op is the environment op `setLegacy` (the collection is instantiated by today's code) -/
+theorem cfOps_no_legacy (s : State) (op : Op) : ∀ o ∈ cfOps s op, CF.isSetLegacy o = false := by
+  intro o ho
+  have hsub : ∀ (x : Sys.Op), o ∈ clockCfOps s x ++ subCfOps s x → CF.isSetLegacy o = false := by
+    intro x hx
+    rcases List.mem_append.mp hx with h1 | h1
+    · cases x with
+      | minter vo => cases vo <;> simp [clockCfOps] at h1 <;> (subst h1; rfl)
+      | _ => simp [clockCfOps] at h1
+    · simp only [subCfOps] at h1
+      split at h1
+      · split at h1
+        · simp only [List.mem_singleton] at h1; subst h1; rfl
+        · cases h1
+      · cases h1
+  cases op with
+  | sys x =>
+    cases x with
+    | minter vo =>
+      simp only [cfOps] at ho
+      split at ho
+      · simp only [List.mem_singleton] at ho; subst ho; rfl
+      · split at ho
+        · exact hsub _ ho
+        · cases ho
+    | mint sender funds stage alloc proof picked =>
+      simp only [cfOps] at ho
+      split at ho
+      · exact hsub _ ho
+      · cases ho
+    | wlInst v sender funds self m =>
+      simp only [cfOps] at ho
+      split at ho
+      · exact hsub _ ho
+      · cases ho
+    | wlExec k sender funds m =>
+      simp only [cfOps] at ho
+      split at ho
+      · exact hsub _ ho
+      · cases ho
+  | create sender funds msg w ci =>
+    simp only [cfOps] at ho
+    split at ho
+    · simp only [createCfOps] at ho
+      split at ho
+      · split at ho
+        · simp only [List.mem_singleton] at ho; subst ho; rfl
+        · cases ho
+      · cases ho
+    · cases ho
+  | block hh t =>
+    simp only [cfOps] at ho
+    split at ho
+    · cases ho
+    · simp only [List.mem_singleton] at ho; subst ho; rfl
+  | collExec sender funds msg => simp only [cfOps, List.mem_singleton] at ho; subst ho; rfl
+  | collMigrateUpdatable => simp only [cfOps, List.mem_singleton] at ho; subst ho; rfl
+  | collMigrateSelf => simp only [cfOps, List.mem_singleton] at ho; subst ho; rfl
+  | collSetVersion v => simp only [cfOps, List.mem_singleton] at ho; subst ho; rfl
+
+/-- `CF` runs (without the environment op `setLegacy`) closed under bank movements of transactions outside the collection family -/
 inductive CFReach : CF.State → CF.State → Prop
   | refl (X : CF.State) : CFReach X X
-  | run {X0 X : CF.State} (l : List CF.Op) : CFReach X0 X → CFReach X0 (CF.run X l)
+  | run {X0 X : CF.State} (l : List CF.Op) : (∀ o ∈ l, CF.isSetLegacy o = false) → CFReach X0 X → CFReach X0 (CF.run X l)
   | bank {X0 X : CF.State} (b : MintPay.Bank) : CFReach X0 X → CFReach X0 { X with bank := b }
 
 /-- **`Sys2` refines `CF`, runs**: the collection contract along every system-2 history is a `CF` run interleaved with foreign
@@ -758,22 +818,23 @@ theorem cf_run (s : State) (ops : List Op) : CFReach (cfOf s) (cfOf (run s ops))
     rw [run_cons]
     refine ih X0 _ ?_
     rw [cf_step]
-    exact .run _ (.bank _ h)
+    exact .run _ (cfOps_no_legacy s op) (.bank _ h)
 
-theorem cf_run_inv (P : CF.State → Prop) (hstep : ∀ X op, P X → P (CF.step' X op)) (X : CF.State) (h0 : P X) (l : List CF.Op) :
-    P (CF.run X l) := by
+theorem cf_run_inv (P : CF.State → Prop) (hstep : ∀ X op, CF.isSetLegacy op = false → P X → P (CF.step' X op)) (X : CF.State)
+    (h0 : P X) (l : List CF.Op) (hl : ∀ o ∈ l, CF.isSetLegacy o = false) : P (CF.run X l) := by
   induction l generalizing X with
   | nil => exact h0
-  | cons op l ih => exact ih _ (hstep X op h0)
+  | cons op l ih =>
+    exact ih _ (hstep X op (hl op (List.mem_cons_self ..)) h0) (fun o ho => hl o (List.mem_cons_of_mem _ ho))
 
-/-- every `CF.step'`-invariant that survives a foreign bank movement holds along `CFReach` — hence of the collection contract
-along every system-2 run -/
-theorem cfReach_inv (P : CF.State → Prop) (hstep : ∀ X op, P X → P (CF.step' X op))
+/-- every invariant of `CF.step'` (over the ops other than the environment op `setLegacy`) that survives a foreign bank movement
+holds along `CFReach` — hence of the collection contract along every system-2 run -/
+theorem cfReach_inv (P : CF.State → Prop) (hstep : ∀ X op, CF.isSetLegacy op = false → P X → P (CF.step' X op))
     (hbank : ∀ (X : CF.State) (b : MintPay.Bank), P X → P { X with bank := b }) {X0 X : CF.State} (h0 : P X0)
     (h : CFReach X0 X) : P X := by
   induction h with
   | refl => exact h0
-  | run l _ ih => exact cf_run_inv P hstep _ ih l
+  | run l hl _ ih => exact cf_run_inv P hstep _ ih l hl
   | bank b _ ih => exact hbank _ b ih
 
 end LP.Sys2
